@@ -13,11 +13,20 @@ import EvalexprVerif.Proofs.Literals
 import EvalexprVerif.Proofs.AgreeToken
 import EvalexprVerif.Proofs.Nearest
 import EvalexprVerif.Proofs.LexExt
+import EvalexprVerif.Proofs.AgreeFnInterface
 
 namespace Evalexpr.Spec.C06
 open Evalexpr Evalexpr.Spec
 
 theorem C06_string (t : Str) : tokenize (quote t) = .ok [.string t] := Evalexpr.Spec.C06_string t
+
+/-- **C06 about the code as translated on this run**: `Gen.tokenize` is the body of `tokenize` (src/token/mod.rs) rendered
+by `translate_fn.py`, calling the rendered `str_to_partial_tokens` (with `parse_string_literal`, `parse_escape_sequence`,
+`try_skip_comment`) and `partial_tokens_to_tokens`; its loops carry fuel, and any fuel above the length of the input suffices
+(`fn_tokenize_agree`). A quoted text lexes to exactly that text. -/
+theorem C06_string_generated (t : Str) (fuel : Nat) (h : (quote t).length < fuel) :
+    Gen.tokenize fuel (quote t) = .ok [.string t] := by
+  rw [AgreeFn.fn_tokenize_agree _ _ h]; exact C06_string t
 
 /-- a string literal between any printable tokens, with any admissible gaps, is still exactly its text -/
 theorem C06_string_embedded (pre post : List (Gap × PTok)) (g0 g : Gap) (t : Str)
